@@ -1788,6 +1788,18 @@ func (tu *_uintNodeRepr) AsUint() (uint64, error) {
 	if err := compatibleKind(tu.schemaType, datamodel.Kind_Int); err != nil {
 		return 0, err
 	}
+	if customConverter := tu.cfg.converterFor(tu.schemaType.Name(), tu.val); customConverter != nil {
+		// the value this node holds is the one the registered int converter yields,
+		// whichever of AsInt and AsUint is asked
+		i, err := customConverter.customToInt(ptrVal(tu.val).Interface())
+		if err != nil {
+			return 0, err
+		}
+		if i < 0 {
+			return 0, fmt.Errorf("bindnode: cannot represent negative integer %d as a uint64", i)
+		}
+		return uint64(i), nil
+	}
 	// TODO(rvagg): do we want a converter option for uint values? do we combine it
 	// with int converters?
 	// we can assume it's a uint64 at this point
